@@ -76,6 +76,8 @@ WirePage == {
   <<"rd_nul", "h_redirect_next", "ValueError">>, <<"rd_port_big", "h_redirect_next", "ValueError">>,
   <<"rd_port_alpha", "h_redirect_next", "ValueError">>, <<"rd_idna_long", "h_redirect_next", "ValueError">>,
   <<"rd_loop", "h_redirect_load", "ProtocolError">>, <<"rd_unresolvable", "h_connect", "DNSNotFound">>,
+  <<"rd_302_post", "none", "none">>, <<"rd_307_post", "none", "none">>, <<"rd_308_post", "none", "none">>,
+  <<"rd_mailto", "none", "none">>, <<"rd_data_url", "none", "none">>,
   <<"ck_garbage", "none", "none">>, <<"ck_huge", "none", "none">>, <<"ck_port_garbage", "none", "none">>,
   <<"ct_garbage", "none", "none">>, <<"cs_unknown", "none", "none">>, <<"cs_nul", "none", "none">>,
   Fx("charset_codec", <<"cs_nontext_codec", "h_scrape_encoding", "LookupError">>, <<"cs_nontext_codec", "none", "none">>), Fx("charset_codec", <<"cs_meta_nontext_codec", "h_scrape_encoding", "LookupError">>, <<"cs_meta_nontext_codec", "none", "none">>),
@@ -102,6 +104,8 @@ WireRobots == {
   <<"rb_redirect_bad", "r_redirect_next", "ValueError">>, <<"rb_close_immediately", "r_hdr_readline", "NetworkError">>,
   <<"rb_gzip_bad", "r_decompress", "ZlibError">>, <<"rb_oversize_line", "r_hdr_readline", "ValueError">>,
   <<"rb_chunk_nl_oversize", "r_chunk_nl_readline", "ValueError">>, Fx("trailer_lenient", <<"rb_trailer_no_colon", "r_trailer_parse", "ValueError">>, <<"rb_trailer_no_colon", "none", "none">>),
+  <<"rb_redirect_mailto", "none", "none">>, <<"rb_redirect_data", "none", "none">>, <<"rb_redirect_ftp", "none", "none">>,
+  <<"rb_star_run", "none", "none">>,
   <<"rb_cl_short", "r_body_read", "NetworkError">>, <<"rb_reset_in_body", "r_body_read", "OSError">> }
 
 (* ---- (b) FTP: the hostile URL is a file of a listed directory ---- *)
